@@ -241,3 +241,39 @@ func convertSearchRow(cols []string, row []any) ([]any, error) {
 	}
 	return out, nil
 }
+
+// ---- exported for C14 -----------------------------------------------------------------
+
+// Stmt is one statement the fake database received.
+type Stmt struct {
+	SQL  string
+	Err  error
+	Rows int
+}
+
+// SearchBackend is the chsim-backed fake database of the search check: statements are
+// executed over the laid-out trace tables and rows are shaped for TraceQLRequestProcessor.
+type SearchBackend struct{ be *chBackend }
+
+// NewSearchBackend lays db out and returns the backend (complexity: scripted answer of the
+// complexity statement, irrelevant when the per-portion processor is driven directly).
+func NewSearchBackend(db *refeval.TQDB, complexity int64) *SearchBackend {
+	return &SearchBackend{&chBackend{db: BuildCHDB(db), complexity: complexity, convert: convertSearchRow}}
+}
+
+// Handle is the fakesql.Handler.
+func (b *SearchBackend) Handle(ctx context.Context, q string, args []driver.NamedValue) (*fakesql.Result, error) {
+	return b.be.handle(ctx, q, args)
+}
+
+// Statements returns what was received so far.
+func (b *SearchBackend) Statements() []Stmt {
+	var out []Stmt
+	for _, s := range b.be.statements() {
+		out = append(out, Stmt{s.SQL, s.Err, s.Rows})
+	}
+	return out
+}
+
+// CH gives the interpreter holding the tables.
+func (b *SearchBackend) CH() *chsim.DB { return b.be.db }
